@@ -223,6 +223,55 @@ class History:
             self.log.append(f"repeat ops on pool[{i}] and on an equal rebuild")
 
 
+def order_independence(ctx):
+    """results do not depend on what was executed before: the same value-only operations are evaluated here in one order and
+    in a fresh interpreter in the reverse order (a cache or any other state shared between calls shows up as a difference)"""
+    import json
+    import subprocess
+    import sys
+    r = ctx.rnd
+    scal = [True, 1.0, False, 0.0, -0.0, 1, 0, -1, 2.5, "a", "", None, "1", 10 ** 12, 1e12]
+
+    def val(d):
+        c = r.random()
+        if d <= 0 or c < .45:
+            return r.choice(scal)
+        if c < .75:
+            return [val(d - 1) for _ in range(r.randint(0, 3))]
+        return {k: val(d - 1) for k in r.sample(["a", "b", "n", "ratio"], r.randint(0, 3))}
+    ops = []
+    for _ in range(ctx.n(120, 1200)):
+        kind = r.choice(["from_native", "any", "list", "dict", "from_native"])
+        v = val(2)
+        if kind == "list" and not isinstance(v, list):
+            v = [v]
+        if kind == "dict" and not isinstance(v, dict):
+            v = {"k": v}
+        ops.append([kind, v])
+    here = []
+    for kind, v in ops:
+        try:
+            res = from_native(copy.deepcopy(v)) if kind == "from_native" else substitute(getattr(schema, kind), copy.deepcopy(v))
+            here.append(repr(res))
+        except Exception as e:  # noqa: BLE001
+            here.append("EXC:" + type(e).__name__)
+    from ..common import REPO, VERIF
+    import os
+    env = dict(os.environ, D42_REPO=REPO, PYTHONDONTWRITEBYTECODE="1")
+    p = subprocess.run([sys.executable, os.path.join(VERIF, "harness", "c07_worker.py"), VERIF], input=json.dumps(ops[::-1]).encode(),
+                       env=env, stdout=subprocess.PIPE, stderr=subprocess.PIPE, timeout=600)
+    if p.returncode != 0:
+        raise RuntimeError("c07 worker failed: " + p.stderr.decode()[-1500:])
+    there = json.loads(p.stdout.decode())[::-1]
+    for (kind, v), a, b in zip(ops, here, there):
+        ctx.count("order_independence_ops")
+        if a != b:
+            call = f"from_native({v!r})" if kind == "from_native" else f"schema.{kind} % {v!r}"
+            ctx.violation("the result of an operation depends on what was executed before it", call=call,
+                          after_the_preceding_operations=a, in_a_fresh_interpreter_after_the_following_ones=b)
+            break
+
+
 def directed_aliasing(ctx):
     """every way a caller-owned container can be handed to the library, followed at once by every kind of mutation"""
     def muts(c):
@@ -322,6 +371,7 @@ def model_history(ctx, rnd, n):
 def run(ctx):
     runner.prove(ctx, MODULE, THEOREMS, FILES)
     directed_aliasing(ctx)
+    order_independence(ctx)
     steps = ctx.n(30, 100)
     for h in range(ctx.n(25, 80)):
         H = History(ctx)
